@@ -146,6 +146,15 @@ class nlz(Function):
             return (n & -n).bit_length() - 1
 
 
+class sgn(Function):
+    """Sign of a number (zero within EPSILON of zero); stays unevaluated until its argument is a number."""
+
+    @classmethod
+    def eval(cls, a):
+        if a.is_number:
+            return Integer(-1 if a < -EPSILON else 1 if a > EPSILON else 0)
+
+
 SPECIAL_FUNCS = {
     "mod": Mod,
     "max": Max,
@@ -155,7 +164,7 @@ SPECIAL_FUNCS = {
     "prod_over": lambda x, i, start, end: Product(x, (i, start, end)),
     "round": Round,
     "abs": abs,
-    "sgn": lambda a: -1 if a < -EPSILON else 1 if a > EPSILON else 0,
+    "sgn": sgn,
     "sin": sin,
     "cos": cos,
     "tan": tan,
